@@ -155,7 +155,7 @@ def tridonic_case(seed, part, i, res):
     dmap.add_type(short_address=3, instance_number=1, instance_type=1)
     dmap.add_type(short_address=3, instance_number=5, instance_type=4)
     picker = simlib.Picker(r, overrides={"tri.queue_delay": 0, "tri.report_delay": 0, "tri.outcome_delay": 0, "tri.answer_delay": 0})
-    sim = simlib.Sim("tridonic", picker, dev_inst_map=dmap)
+    sim = simlib.Sim("tridonic", picker, dev_inst_map=dmap, register_callbacks=False)
     segs = []
     t = 1.0
     n_seg = r.choice([1, 2, 3])
